@@ -150,7 +150,13 @@ def run(ctx):
     holders = []
     for it in prog.items:
         if it["k"] == "struct" and any("JoinHandle<" in fty for (_, fty) in it["fields"]) and "::test" not in it["path"]:
-            holders.append(it)
+            # only what is kept in a routing table outlives the function that created the task: a struct that merely carries the
+            # handle from one function to the next (a named return value) is not an owner
+            nm = last_seg(it["path"])
+            stored = any(("LruCache<" in l["ty"].get("s", "") or "HashMap<" in l["ty"].get("s", "")) and re.search(r"\b" + re.escape(nm) + r"\b", l["ty"].get("s", ""))
+                         for b_ in bodies for l in b_.locals)
+            if stored:
+                holders.append(it)
     ctx.floor("D4", "structs owning a per-flow JoinHandle", 2, len(holders))
     for it in holders:
         drops = [b for b in bodies if b.impl_trait and last_seg(b.impl_trait) == "Drop" and b.impl_self_def == it["path"] and b.method == "drop"]
